@@ -396,4 +396,323 @@ theorem done_notify_step (ha : InvA B c) (hb : InvB B c) (hs : (g', l') ∈ (sys
       grind
     all_goals (step_simp; simp only [marksOf] at h0 ⊢; simp only [hut, ↓reduceIte]; exact h0)
 
+theorem wait_rec_step (ha : InvA B c) (hb : InvB B c) (hs : (g', l') ∈ (sys B).step c.g (c.locals t)) :
+    ∀ u, ((c.set t g' l').locals u).pc.afterAlloc = true →
+      ((c.set t g' l').locals u).wait = (u, ((c.set t g' l').locals u).serial) ∧
+      ((c.set t g' l').g.waits ((c.set t g' l').locals u).wait).addr = ((c.set t g' l').locals u).addr := by
+  intro u
+  have h0 := hb.wait_rec u
+  have h1 := hb.wait_rec t
+  have htid := ha.tid_eq t
+  have hst := step_inv hs
+  clear hs
+  by_cases hut : u = t
+  · subst hut
+    cases hst <;> no_crash_case ha
+    case idle op rest hpc hp => cases op <;> (step_simp; grind)
+    all_goals (step_simp; grind)
+  · cases hst <;> no_crash_case ha
+    all_goals (step_simp; grind)
+
+theorem fresh_waiting_step (ha : InvA B c) (hb : InvB B c) (hs : (g', l') ∈ (sys B).step c.g (c.locals t)) :
+    ∀ u, ((c.set t g' l').locals u).pc.preWait = true →
+      ((c.set t g' l').g.waits ((c.set t g' l').locals u).wait).status = .waiting := by
+  intro u
+  have h0 := hb.fresh_waiting u
+  have htid := ha.tid_eq t
+  have hmt := ha.mutex_iff t
+  have hmu := ha.mutex_iff u
+  have hst := step_inv hs
+  clear hs
+  by_cases hut : u = t
+  · subst hut
+    cases hst <;> no_crash_case ha
+    case idle op rest hpc hp => cases op <;> (step_simp; grind)
+    case wCheckAgain hpc ht hw hst' =>
+      step_simp
+      intro _
+      cases h : (c.g.waits (c.locals u).wait).status
+      · rfl
+      · exact absurd h hst'
+    all_goals (step_simp; grind)
+  · have hwu := ha.wait_live u
+    have hwt := ha.wait_live t
+    have hpw : (c.locals u).pc.preWait = true → (c.locals u).pc.holds = true ∧ (c.locals u).pc.hasWait = true := by
+      cases (c.locals u).pc <;> simp
+    cases hst <;> no_crash_case ha
+    all_goals (step_simp; grind)
+
+theorem WStatus.eq_notified_of_ne_waiting {s : WStatus} (h : s ≠ .waiting) : s = .notified := by
+  cases s <;> simp_all
+
+theorem signal_head_step (ha : InvA B c) (hb : InvB B c) (hs : (g', l') ∈ (sys B).step c.g (c.locals t)) :
+    ∀ u, ((c.set t g' l').locals u).pc = .nSignal →
+      ∃ w rest, ((c.set t g' l').locals u).cursor = w :: rest ∧ ((c.set t g' l').g.waits w).status = .notified := by
+  intro u
+  have h0 := hb.signal_head u
+  have htid := ha.tid_eq t
+  have hmt := ha.mutex_iff t
+  have hmu := ha.mutex_iff u
+  have hst := step_inv hs
+  clear hs
+  by_cases hut : u = t
+  · subst hut
+    cases hst <;> no_crash_case ha
+    case idle op rest hpc hp => cases op <;> (step_simp; grind)
+    all_goals (step_simp; grind)
+  · cases hst <;> no_crash_case ha
+    case wAlloc hpc =>
+      step_simp
+      simp only [hut, ↓reduceIte]
+      intro h
+      obtain ⟨w, rest, hc, hs⟩ := h0 h
+      have hl := ha.cursor_live (Or.inr h) hc
+      have hlw := ha.live_wait w hl
+      refine ⟨w, rest, hc, ?_⟩
+      split
+      · subst_vars; simp [htid, hpc] at hlw
+      · exact hs
+    all_goals (step_simp; grind)
+
+theorem walked_step (ha : InvA B c) (hb : InvB B c) (hs : (g', l') ∈ (sys B).step c.g (c.locals t)) :
+    ∀ u n, (((c.set t g' l').locals u).pc = .nLoop ∨ ((c.set t g' l').locals u).pc = .nSignal) →
+      ((c.set t g' l').locals u).slot = some n →
+      ∀ w ∈ ((c.set t g' l').g.nodes n).waits, w ∉ ((c.set t g' l').locals u).cursor →
+        ((c.set t g' l').g.waits w).status = .notified := by
+  intro u n
+  have h0 := hb.walked u n
+  have htid := ha.tid_eq t
+  have hmt := ha.mutex_iff t
+  have hmu := ha.mutex_iff u
+  have hst := step_inv hs
+  clear hs
+  by_cases hut : u = t
+  · subst hut
+    have hsh := hb.signal_head u
+    cases hst <;> no_crash_case ha
+    case idle op rest hpc hp => cases op <;> (step_simp; grind)
+    case nLoopSkip w' rest hpc hc hn hw hst' =>
+      have := WStatus.eq_notified_of_ne_waiting hst'
+      step_simp; grind
+    all_goals (step_simp; grind)
+  · cases hst <;> no_crash_case ha
+    all_goals (step_simp; grind)
+
+theorem notified_unparked_step (ha : InvA B c) (hb : InvB B c) (hs : (g', l') ∈ (sys B).step c.g (c.locals t)) :
+    ∀ u, ((c.set t g' l').locals u).pc = .wParked →
+      ((c.set t g' l').g.waits ((c.set t g' l').locals u).wait).status = .notified →
+      (u, ((c.set t g' l').locals u).wait) ∈ (c.set t g' l').g.parked →
+      ∃ v, ((c.set t g' l').locals v).pc = .nSignal ∧
+        ((c.set t g' l').locals v).cursor.head? = some ((c.set t g' l').locals u).wait := by
+  intro u
+  have h0 := hb.notified_unparked u
+  have htid := ha.tid_eq t
+  have hst := step_inv hs
+  clear hs
+  by_cases hut : u = t
+  · subst hut
+    cases hst <;> no_crash_case ha
+    case idle op rest hpc hp => cases op <;> (step_simp; grind)
+    case wCondWait hpc hw hm =>
+      have := hb.fresh_waiting u (by simp [hpc])
+      step_simp; grind
+    case wSpurious hpc hp =>
+      have := ha.parked_nodup
+      step_simp
+      intro _ _ hmem
+      exact absurd hmem (by rw [htid]; exact fun h => ((List.Nodup.mem_erase_iff this).mp h).1 rfl)
+    case wTimeout hpc hp ht =>
+      have := ha.parked_nodup
+      step_simp
+      intro _ _ hmem
+      exact absurd hmem (by rw [htid]; exact fun h => ((List.Nodup.mem_erase_iff this).mp h).1 rfl)
+    all_goals (step_simp; grind)
+  · have hwu := ha.wait_live u
+    have hwt := ha.wait_live t
+    cases hst <;> no_crash_case ha
+    case nLoopMark w' rest hpc hc hn hw hst' =>
+      step_simp
+      simp only [hut, ↓reduceIte]
+      intro h1 h2 h3
+      by_cases hw' : (c.locals u).wait = w'
+      · exact ⟨t, by simp, by simp [hc, hw']⟩
+      · rw [if_neg hw'] at h2
+        obtain ⟨v, hv1, hv2⟩ := h0 h1 h2 h3
+        have hvt : v ≠ t := by rintro rfl; rw [hpc] at hv1; cases hv1
+        exact ⟨v, by simp [hvt, hv1], by simp [hvt, hv2]⟩
+    case nSignal w rest ps hpc hc hw hps =>
+      step_simp
+      simp only [hut, ↓reduceIte]
+      intro h1 h2 h3
+      have hsub := Parked.signal_sub _ _ _ hps _ h3
+      by_cases hw' : (c.locals u).wait = w
+      · exfalso
+        obtain ⟨q, hq1, hq2, hq3⟩ := Parked.signal_wakes _ _ _ hps ha.parked_nodup (u, (c.locals u).wait) hsub hw'
+        obtain ⟨hq4, hq5⟩ := ha.parked_ok q.1 q.2 hq1
+        have hq6 := (ha.wait_live q.1 (by simp [hq4])).1
+        have hu6 := (hwu (by simp [h1])).1
+        have : q = (u, (c.locals u).wait) := by
+          have h7 : (c.locals q.1).wait = (c.locals u).wait := by rw [hq5, hq2, hw']
+          rw [hq6, hu6] at h7
+          have h8 : q.1 = u := (Prod.mk.inj h7).1
+          ext
+          · exact h8
+          · simp [hq2, hw']
+          · simp [hq2, hw']
+        rw [this] at hq3
+        exact hq3 h3
+      · obtain ⟨v, hv1, hv2⟩ := h0 h1 h2 hsub
+        have hvt : v ≠ t := by
+          rintro rfl
+          rw [hc] at hv2
+          simp at hv2
+          exact hw' hv2.symm
+        exact ⟨v, by simp [hvt, hv1], by simp [hvt, hv2]⟩
+    all_goals (
+      step_simp
+      simp only [hut, ↓reduceIte]
+      intro h1 h2 h3
+      have hpre : ∃ v, (c.locals v).pc = .nSignal ∧ (c.locals v).cursor.head? = some (c.locals u).wait := by
+        apply h0 h1 <;> grind [List.mem_of_mem_erase]
+      obtain ⟨v, hv1, hv2⟩ := hpre
+      have hvt : v ≠ t := by rintro rfl; grind
+      exact ⟨v, by simp [hvt, hv1], by simp [hvt, hv2]⟩)
+
+theorem InvA.node_unique (ha : InvA B c) {n m : Id} (hn : (c.g.nodes n).live = true)
+    (hm : (c.g.nodes m).live = true) (hk : (c.g.nodes n).key = (c.g.nodes m).key) : n = m := by
+  have h1 := ha.live_chain n hn
+  have h2 := ha.live_chain m hm
+  rw [hk] at h1
+  exact ha.chain_keys _ n m h1 h2 hk
+
+/-- an enqueued waiter's record sits in the (unique) live node keyed by its address -/
+theorem InvA.enq_in_node (ha : InvA B c) {v : Tid} {n : Id} (hv : (c.locals v).pc.enq = true)
+    (hn : (c.g.nodes n).live = true) (hk : (c.g.nodes n).key = (c.locals v).addr) :
+    (c.locals v).wait ∈ (c.g.nodes n).waits := by
+  obtain ⟨m, hs, hl, hkm⟩ := ha.slot_ok v (PC.hasSlot_of_enq hv)
+  have : m = n := ha.node_unique hl hn (by rw [hkm, hk])
+  subst this
+  exact ha.enq_mem v m hv hs
+
+theorem unlock_ok_step (ha : InvA B c) (hb : InvB B c) (hs : (g', l') ∈ (sys B).step c.g (c.locals t)) :
+    ∀ u, ((c.set t g' l').locals u).pc = .nUnlock → ∀ v, ((c.set t g' l').locals v).pc.enq = true →
+      ((c.set t g' l').locals v).addr = ((c.set t g' l').locals u).addr →
+      ((c.set t g' l').g.waits ((c.set t g' l').locals v).wait).status = .notified ∨
+        ((c.set t g' l').locals u).notified = ((c.set t g' l').locals u).count := by
+  intro u hu v hv hadr
+  have h0 := hb.unlock_ok u
+  have htid := ha.tid_eq t
+  have hmt := ha.mutex_iff t
+  have hmu := ha.mutex_iff u
+  have hmv := ha.mutex_iff v
+  have hst := step_inv hs
+  clear hs
+  have hvu : v ≠ u := by
+    rintro rfl
+    rw [hu] at hv
+    simp at hv
+  by_cases hut : u = t
+  · subst hut
+    revert hu hv hadr
+    cases hst <;> no_crash_case ha
+    case idle op rest hpc hp => cases op <;> (step_simp; grind)
+    case nGetMapNull hpc hal =>
+      step_simp
+      simp only [hvu, ↓reduceIte]
+      intro _ hv _
+      have := ha.map_alloc v (PC.afterCreate_of_enq hv)
+      rw [hal] at this; cases this
+    case nMapGetNone hpc hg =>
+      step_simp
+      simp only [hvu, ↓reduceIte]
+      intro _ hv hadr
+      exfalso
+      have hma := ha.map_alloc u (by simp [hpc])
+      unfold mapGet at hg
+      simp [hma] at hg
+      obtain ⟨m, hs, hl, hkm⟩ := ha.slot_ok v (PC.hasSlot_of_enq hv)
+      have hmem := ha.live_chain m hl
+      rw [hkm, hadr] at hmem
+      exact chainFind_none _ _ _ hg m hmem (by rw [hkm, hadr])
+    case nLoopEnd hpc hc =>
+      step_simp
+      simp only [hvu, ↓reduceIte]
+      intro _ hv hadr
+      left
+      obtain ⟨n, hs, hl, hk⟩ := ha.slot_ok u (by simp [hpc])
+      have hmem := ha.enq_in_node hv hl (by rw [hk, hadr])
+      exact hb.walked u n (Or.inl hpc) hs _ hmem (by simp [hc])
+    case nLoopFull w rest hpc hc hn =>
+      step_simp
+      simp only [hvu, ↓reduceIte]
+      intro _ _ _
+      right
+      have := hb.count_le u (by simp [hpc])
+      simp [hpc] at this
+      omega
+    all_goals (step_simp; grind)
+  · simp only [Cfg.set_locals, hut, if_false] at hu
+    have huh : (c.locals u).pc.holds = true := by simp [hu]
+    have hmx : c.g.mutex = some u := hmu.mpr huh
+    have h0' := h0 hu v
+    have hwv := ha.wait_live v
+    have hwt := ha.wait_live t
+    have he2 := @PC.hasWait_of_enq (c.locals v).pc
+    revert hv hadr
+    by_cases hvt : v = t
+    · subst hvt
+      cases hst <;> no_crash_case ha
+      case idle op rest hpc hp => cases op <;> (step_simp; grind)
+      all_goals (step_simp; grind)
+    · cases hst <;> no_crash_case ha
+      all_goals (step_simp; grind)
+
+theorem exit_ok_step (ha : InvA B c) (hb : InvB B c) (hs : (g', l') ∈ (sys B).step c.g (c.locals t)) :
+    ∀ u, ((c.set t g' l').locals u).pc = .wIsTimeout →
+      ((c.set t g' l').g.waits ((c.set t g' l').locals u).wait).status = .notified ∨
+        ((c.set t g' l').locals u).timedOut = true := by
+  intro u
+  have h0 := hb.exit_ok u
+  have htid := ha.tid_eq t
+  have hmt := ha.mutex_iff t
+  have hmu := ha.mutex_iff u
+  have hst := step_inv hs
+  clear hs
+  by_cases hut : u = t
+  · subst hut
+    cases hst <;> no_crash_case ha
+    case idle op rest hpc hp => cases op <;> (step_simp; grind)
+    all_goals (step_simp; grind)
+  · cases hst <;> no_crash_case ha
+    all_goals (step_simp; grind)
+
+theorem is_timeout_step (ha : InvA B c) (hb : InvB B c) (hs : (g', l') ∈ (sys B).step c.g (c.locals t)) :
+    ∀ u, ((c.set t g' l').locals u).pc.afterIsTimeout = true →
+      (((c.set t g' l').locals u).isTimeout = true →
+        ((c.set t g' l').g.waits ((c.set t g' l').locals u).wait).status = .waiting ∧
+          ((c.set t g' l').locals u).timedOut = true) ∧
+      (((c.set t g' l').locals u).isTimeout = false →
+        ((c.set t g' l').g.waits ((c.set t g' l').locals u).wait).status = .notified) := by
+  intro u
+  have h0 := hb.is_timeout u
+  have htid := ha.tid_eq t
+  have hmt := ha.mutex_iff t
+  have hmu := ha.mutex_iff u
+  have hst := step_inv hs
+  clear hs
+  by_cases hut : u = t
+  · subst hut
+    have hex := hb.exit_ok u
+    cases hst <;> no_crash_case ha
+    case idle op rest hpc hp => cases op <;> (step_simp; grind)
+    case wIsTimeout hpc hw =>
+      step_simp
+      intro _
+      cases hst' : (c.g.waits (c.locals u).wait).status <;> simp_all
+    all_goals (step_simp; grind)
+  · have hai : (c.locals u).pc.afterIsTimeout = true → (c.locals u).pc.holds = true := by
+      cases (c.locals u).pc <;> simp
+    cases hst <;> no_crash_case ha
+    all_goals (step_simp; grind)
+
 end W2c2Verif.Futex
